@@ -363,11 +363,17 @@ func reifyGetField(
 	}
 
 	if isNil(value) {
+		// a setting that is null was read from somewhere: errors about it name that source
+		meta := cfg.metadata
+		if value != nil && value.meta() != nil {
+			meta = value.meta()
+		}
+
 		// When fieldType is a pointer and the value is nil, return nil as the
 		// underlying type should not be allocated.
 		if fieldType.Kind() == reflect.Ptr {
 			if err := tryRecursiveValidate(to, opts.opts, opts.validators); err != nil {
-				return raiseValidation(cfg.ctx, cfg.metadata, name, err)
+				return raiseValidation(cfg.ctx, meta, name, err)
 			}
 			return nil
 		}
@@ -375,7 +381,7 @@ func reifyGetField(
 		// Primitive types return early when it doesn't implement the Initializer interface.
 		if fieldType.Kind() != reflect.Struct && !hasInitDefaults(fieldType) {
 			if err := tryRecursiveValidate(to, opts.opts, opts.validators); err != nil {
-				return raiseValidation(cfg.ctx, cfg.metadata, name, err)
+				return raiseValidation(cfg.ctx, meta, name, err)
 			}
 			return nil
 		}
